@@ -13,7 +13,7 @@ func init() { register("C11", checkC11) }
 // fault kinds: an expression whose evaluation fails (C11's list)
 var c11FaultExprs = []string{
 	"(1 / 0)", "(7 % 0)", "nf(1)", "(\"a\" ~ \"(\")", "([1] < 2)", "$nope", "printf(\"%d\", 1)",
-	"[1][0 - 5]", "[1][2000000]", "\"a\\q\"", "json(tf)", "num()", "garr.push()", "({a: 1} > 0)", "(\"x\" !~ 5)",
+	"[1][0 - 5]", "\"a\\q\"", "json(tf)", "num()", "garr.push()", "({a: 1} > 0)", "(\"x\" !~ 5)",
 }
 
 // syntactic shapes that put a failing expression E into a slot of a statement
@@ -198,7 +198,7 @@ func checkC11(c *Ctx) {
 	c.TLC(TLCOpt{Module: "MC_EvalFault", Heap: "12g",
 		Cfg: cfgText("INIT Init", "NEXT MCNext", "CONSTANTS", fmt.Sprintf("MaxNodes = %d", maxNodes), "CallLimit = 50", "Fuel = 1",
 			"NextOutsidePattern = {\"ends-rule\"}", "INVARIANTS TypeOK FrameBalance BaseAtRuleStart DepthBounded NoEscape OutcomeLegal SigConsumed Vec",
-			"PROPERTIES StopFreezesOutput DoneIsFinal"),
+			"PROPERTIES StopFreezesOutput DoneIsFinal RefinesFrames"),
 		OnVec: func(raw []byte) {
 			var v faultVec
 			VecDecode(raw, &v)
